@@ -30,12 +30,15 @@ def r_provider_typestate(repo, rep, R='R6.1'):
     w = '%s:%s Unification.__call__' % (UNI, call.lineno)
     S_ = N('self')
     paths = SymExec(call).run()
+    own_methods = {f_.name for f_ in getattr(call, '_parent', None).body if isinstance(f_, ast.FunctionDef)} if isinstance(getattr(call, '_parent', None), ast.ClassDef) else set()
     n_ret = 0
     for st, out in paths:
         trace = [(e[1], e[2]) for e in st.events if e[0] == 'branch']
         done_conds = [(c, p) for c, p in trace if c == A(S_, 'done')]
         first_effect = None
         for e in st.events:
+            if e[0] == 'call' and e[1][1][0] == 'attr' and e[1][1][1] == S_ and e[1][1][2] in own_methods:
+                continue        # a method of the matcher itself, read in place: its statements are the events that follow
             if e[0] in ('setattr', 'setitem', 'call', 'aug', 'del'):
                 first_effect = e
                 break
